@@ -61,6 +61,44 @@ def r1(ctx):
                 sample=[(f, render(x), x["l"].get("ty")) for f, x in divs])
 
 
+
+def _accumulation(ctx, fn, h):
+    """the per-row accumulation of an aggregate helper over its buffer parameter: (added expression, is_row_value(node) ->
+    bool, Locals).  Recognises `for row in buffer { .. acc += e .. }`, `buffer.iter().for_each(..)` and `..fold(init, |acc, v| acc + e)`."""
+    import sem
+    params = ctx.prog.fns[fn]["params"]
+    buf_id = params[0]["id"]
+    locs = Locals(h)
+    for it in find_iterations(h):
+        if sem.root_res(it["iter"], locs) != buf_id:
+            continue
+        row_ids = set(pat_binders(it["pat"]))
+        adds = [x for x in walk_exprs(it["body"]) if x["k"] == "AssignOp" and x["op"] == "+="]
+        if len(adds) != 1:
+            return None
+
+        def is_row_value(n, row_ids=row_ids):
+            return sem.root_res(n, locs) in row_ids
+        return adds[0]["r"], is_row_value, locs
+    for c in walk_exprs(h):
+        if c["k"] == "MCall" and c["m"] == "fold" and len(c["args"]) == 2 and sem.root_res(c["recv"], locs) == buf_id:
+            cl = peel(c["args"][1], methods=False)
+            if cl["k"] != "Closure" or len(cl.get("params") or []) != 2:
+                return None
+            acc_id, v_id = [pat_binders(p_)[0] if pat_binders(p_) else None for p_ in cl["params"]]
+            body = peel(cl["body"], methods=False)
+            if body["k"] == "Bin" and body["op"] == "+":
+                sides = [body["l"], body["r"]]
+                accs = [x for x in sides if peel(x).get("res") == acc_id]
+                if len(accs) == 1:
+                    rhs = [x for x in sides if x is not accs[0]][0]
+                    chain = render(c["recv"])
+
+                    def is_row_value(n, v_id=v_id, chain=chain):
+                        return sem.root_res(n, locs) == v_id and "get(" in chain and "parse" in chain
+                    return rhs, is_row_value, locs
+    return None
+
 def r2(ctx):
     arms, m = agg_arms(ctx)
     n = 0
@@ -112,22 +150,43 @@ def r2(ctx):
             ctx.violation("primitive/%s" % fn, ctx.where(AGG, a["body"]),
                           "%s must divide the squared deviations by %s and %s take the square root; divisor `%s`, sqrt %s" %
                           (fn, "n - 1" if samp else "n", "" if sqrt else "not", div, "sqrt" in ns))
-    # get_variance: sum of (mean - value)^2 / n over all rows
-    vh = ctx.anchor_hir(VARIANCE)
-    r = " ".join(render(x) for x in walk_exprs(vh) if x["k"] == "AssignOp")
-    ok = "powi(2)" in r and "avg" in r and "/" in r and "+=" in r and calls_to(vh, MEAN)
-    n += 1
-    ctx.obligation(bool(ok))
-    if not ok:
-        ctx.violation("primitive/variance-formula", ctx.where(VARIANCE), "get_variance must accumulate (mean - value)^2 / n; found `%s`" % r)
-    # get_buffer_sum adds every parsed value
-    sh = ctx.anchor_hir(SUM)
-    r = " ".join(render(x) for x in walk_exprs(sh) if x["k"] == "AssignOp")
-    ok = r.strip() in ("sum += value",)
-    n += 1
-    ctx.obligation(ok)
-    if not ok:
-        ctx.violation("primitive/sum-formula", ctx.where(SUM), "get_buffer_sum must add each value once; found `%s`" % r)
+    # get_variance: sum of (mean - value)^2 / n over all rows; get_buffer_sum: sum of the parsed values
+    import sem
+    for fn, what in ((VARIANCE, "variance"), (SUM, "sum")):
+        h = ctx.anchor_hir(fn)
+        acc = _accumulation(ctx, fn, h)
+        n += 1
+        if acc is None:
+            ctx.obligation(False)
+            ctx.violation("primitive/%s-formula" % what, ctx.where(fn), "%s must accumulate over every row of the buffer with `+=` (or a fold); no such accumulation found" % short(fn, 1))
+            continue
+        rhs, is_row_value, locs = acc
+        rr = render(rhs)
+        if what == "sum":
+            ok = is_row_value(rhs) and peel(locs.chase(rhs), methods=False)["k"] == "Path"
+            why = "get_buffer_sum must add each value once; found `%s`" % rr
+        else:
+            ok = False
+            d = peel(locs.chase(rhs), methods=False)
+            if d["k"] == "Bin" and d["op"] == "/":
+                sq = peel(locs.chase(d["l"]), methods=False)
+                dev = None
+                if sq["k"] == "MCall" and sq["m"] == "powi" and render(sq["args"][0]) == "2":
+                    dev = peel(locs.chase(sq["recv"]), methods=False)
+                elif sq["k"] == "Bin" and sq["op"] == "*" and render(locs.chase(sq["l"])) == render(locs.chase(sq["r"])):
+                    dev = peel(locs.chase(sq["l"]), methods=False)
+                divisor = render(locs.chase(peel(d["r"], methods=False)))
+                params = [p_["name"] for p_ in ctx.prog.fns[fn]["params"]]
+                n_ok = any(divisor.replace("(", "").replace(")", "").split(" as ")[0].strip() == p_ for p_ in params[2:3])
+                if dev is not None and dev["k"] == "Bin" and dev["op"] == "-":
+                    sides = [dev["l"], dev["r"]]
+                    mean_side = [x for x in sides if calls_to(locs.chase(peel(x, methods=False)), MEAN) or is_call_to(peel(locs.chase(peel(x, methods=False))), MEAN)]
+                    val_side = [x for x in sides if is_row_value(x)]
+                    ok = len(mean_side) == 1 and len(val_side) == 1 and mean_side[0] is not val_side[0] and n_ok
+            why = "get_variance must accumulate (mean - value)^2 / n; found `%s`" % rr
+        ctx.obligation(bool(ok))
+        if not ok:
+            ctx.violation("primitive/%s-formula" % what, ctx.where(fn, rhs), why)
     # all of them read the column named by buffer_key
     for fn in ("Min", "Max"):
         a = arms.get(fn)
@@ -176,7 +235,10 @@ def r3(ctx):
     # the aggregate reads that buffer (or the group's partition)
     gh = ctx.anchor_hir(GFV)
     cs = calls_to(gh, AGG)
-    ok = len(cs) == 1 and "raw_output_buffer" in render(cs[0]["args"][1]) and "buffer_data" in render(cs[0]["args"][1])
+    ok = len(cs) == 1
+    if ok:
+        a1 = render(Locals(gh).chase(peel(cs[0]["args"][1], methods=False)))
+        ok = "raw_output_buffer" in a1 and "buffer_data" in a1 and "unwrap_or" in a1
     ctx.obligation(ok)
     if not ok:
         ctx.violation("buffer/reader", ctx.where(GFV), "get_function_value must aggregate over the group's rows or, without grouping, the whole buffer")
